@@ -1,12 +1,12 @@
 INIT Init
 NEXT Next
 CONSTANTS
-  MAXSIZE = 4
-  MaxSkip = 6
-  Hashes = {0, 1, 2, 3, 4, 6, 8, 12, 16, 24, 32, 48}
+  MAXSIZE = 2
+  MaxSkip = 4
+  Hashes = {0, 1, 2, 3, 4, 8}
   NSk = 3
-  MaxIns = 7
-  MaxMrg = 3
+  MaxIns = 5
+  MaxMrg = 2
   FixMerge = TRUE
   FixMergeRead = TRUE
 VIEW View
